@@ -17,7 +17,7 @@ from vlib.spec import build, close, decls_of, var_names
 ID = "C12"
 LEVEL = "exploration"
 DESIGN_REF = "DESIGN.md section 5, C12"
-CASE_TIMEOUT = 30.0
+CASE_TIMEOUT = 15.0
 RULE = (
     "Generated surrogate-free models over (a) every function of the shipped mxlpy.fns rate-law library and (b) the "
     "source-backed check library (conditional rate laws, nested calls): derived chains declared in shuffled order, "
@@ -48,7 +48,7 @@ FNS_ARITY = {
 
 def budget(tier: str) -> dict:
     if tier == "quick":
-        return {"examples": 400}
+        return {"examples": 300}
     return {"examples": 700, "shards": 16}
 
 
@@ -204,7 +204,11 @@ def examine(case: dict, ctx) -> Outcome:
     if any(v != v or abs(v) > 1e12 for v in want):
         out.skipped = "reference-undefined-at-new-parameters"
         return out
-    allp = m.get_args(dict(case["state"]), case["time"])
+    try:
+        allp = m.get_args(dict(case["state"]), case["time"])
+    except (TypeError, ValueError, ZeroDivisionError, OverflowError):
+        out.skipped = "reference-undefined-at-new-parameters"
+        return out
     sub = {sympy.Symbol("time"): sympy.Float(case["time"])}
     for v, val in zip(vn, y):
         sub[sm.variables[v] if v in sm.variables else sympy.Symbol(v)] = sympy.Float(val)
@@ -256,6 +260,19 @@ def examine(case: dict, ctx) -> Outcome:
         if case.get("stiff"):
             out.classes.append("stiff")
         m0 = build(spec)
+        # only tame dynamics: generated nonlinear right-hand sides can blow up in finite time,
+        # which makes the plain reference integration crawl
+        if not case.get("stiff"):
+            try:
+                ic = m0.get_initial_conditions()
+                r1 = np.array(m0(0.0, list(ic.values())), dtype=float)
+                r2 = np.array(m0(0.0, [2.0 * v for v in ic.values()]), dtype=float)
+                tame = np.all(np.isfinite(r1)) and np.all(np.isfinite(r2)) and np.abs(r1).max() <= 20 and np.abs(r2).max() <= 200
+            except Exception:  # noqa: BLE001
+                tame = False
+            if not tame:
+                out.classes.append("simulation-skipped-untame")
+                return out
         try:
             ref = Simulator(m0).simulate(horizon, steps=4).get_result().value
         except Exception:  # noqa: BLE001
